@@ -300,7 +300,7 @@ def operator_cases(draw):
         c["step"] = draw(st.sampled_from([1.0, 0.3, 0.03]))  # size of u_{n+1}-u_n relative to amp
     if op == "quadrature":
         c["coefK"] = draw(st.sampled_from([0.5, 1.0, 0.75, 0.9]))
-        c["nPoints"] = draw(st.integers(1, 6))
+        c["nPoints"] = draw(st.integers(1, 8))
         c["tol"] = draw(st.sampled_from([None, None, 1e-2, 1e-4, 1e-8]))
     if op == "active":
         c["tau"] = draw(st.integers(-8, 8).filter(lambda k: k != 0)) / 4.0
@@ -339,7 +339,7 @@ def enum_operator_grid(tier):
                 c.update(law=hx.law_record_rng(hx.LAWS[i % len(hx.LAWS)], dim, rng),
                          thickness=[1.0, 0.5, 2.0][int(rng.integers(0, 3))] if dim == 2 else 1.0,
                          seed2=int(rng.integers(0, 1000)), step=[1.0, 0.3, 0.03][int(rng.integers(0, 3))],
-                         coefK=[0.5, 1.0, 0.75][int(rng.integers(0, 3))], nPoints=int(rng.integers(1, 6)),
+                         coefK=[0.5, 1.0, 0.75][int(rng.integers(0, 3))], nPoints=int(rng.integers(1, 9)),
                          tol=[None, 1e-4][int(rng.integers(0, 2))], tau=[-1.0, 0.75, 2.0][int(rng.integers(0, 3))],
                          tau_kind=["scalar", "elem", "gauss"][int(rng.integers(0, 3))], fib=int(rng.integers(0, 100)),
                          eta=int(rng.integers(1, 13)) / 4.0, vseed=int(rng.integers(0, 1000)))
@@ -479,6 +479,28 @@ def check_operator(case, rec):
                     if not np.array_equal(np.asarray(call(u_np1 + s * h * d)[2]), n0):
                         raise Inconclusive("adaptive rule changes inside the FD stencil")
         resid = lambda x: _asm(N, dofs, call(x)[1])  # noqa
+        if op == "quadrature" and not tol:
+            # (added by the lead) consistency of the fixed path rule itself - the finite-difference oracle below only
+            # ties the tangent to whatever residual the rule produces:
+            # (i) a zero step leaves the pointwise stress: R_quad(u_n -> u_n) = R_spk(u_n), i.e. the weights sum to 1
+            R0 = _asm(N, dofs, call(u_n)[1])
+            Rs = _asm(N, dofs, NL.SecondPiolaKirchhoffStressTensor(mat, state(u_n))[1])
+            absRs = _asm(N, dofs, np.abs(_np(NL.SecondPiolaKirchhoffStressTensor(mat, state(u_n))[1])))
+            rec.close(R0 - Rs, np.abs(absRs).max() + 1e-300, 1e-10, "quadrature_zero_step",
+                      f"{lawp['name']} {mr['elemType']} nPoints={case['nPoints']}: the path-quadrature stress of a zero step is not "
+                      "the pointwise stress", nPoints=int(case["nPoints"]), **sig)
+            # (ii) for a stored energy quadratic in E (Saint-Venant-Kirchhoff) dW/ds is cubic along the step: every rule
+            # of degree >= 3 is exact, so with the midpoint evaluation R.du = W(u_{n+1}) - W(u_n)
+            if lawp["name"] == "SaintVenantKirchhoff" and coefK == 0.5 and case["nPoints"] >= 3:
+                wJ = _np(g.Get_weightedJacobian_e_pg(mt))
+                th = float(getattr(mat, "thickness", 1.0)) if dim == 2 else 1.0
+                Wint = lambda x: th * float(np.sum(wJ * _np(mat.Compute_W(state(x)))))  # noqa
+                dW = Wint(u_np1) - Wint(u_n)
+                work = float(_asm(N, dofs, R_e) @ du)
+                absW = th * float(np.sum(wJ * (np.abs(_np(mat.Compute_W(state(u_np1)))) + np.abs(_np(mat.Compute_W(state(u_n)))))))
+                rec.close(work - dW, absW + 1e-300, 1e-9, "quadrature_energy_identity",
+                          f"SVK {mr['elemType']} nPoints={case['nPoints']}: R.du = {work!r} but W(u_n+1)-W(u_n) = {dW!r}",
+                          nPoints=int(case["nPoints"]), **sig)
         sc = _fd_pair(rec, resid, u_np1, d, _asm_Kd(N, dofs, K_e, d), _asm_Kd(N, dofs, np.abs(K_e), np.abs(d)),
                       "tangent_" + op, f"{lawp['name']} {mr['elemType']} coefK={coefK}", sig, factor=coefK,
                       guard=guard)
